@@ -123,6 +123,27 @@ def _recipes(fn):
 
 def run(ctx):
     rep = ctx.report
+    from ..typestate import check_sentinels as _sentinels
+    rep.rule('R7.8', 'a local that starts as None is not compared (==, !=) with per-row values before it was tested for None: None is a legal key and cell value')
+    ctx.floor('sentinel_scan_functions', _sentinels(ctx, rep, 'R7.8', ctx.functions(['petl.transform.hashjoins', 'petl.util.lookups'])), 20)
+    # `missing` reaches every padding site unchanged: the C12 R12.5 obligations of this module
+    from . import c12 as _c12
+    from ..report import Report as _Report
+    _sub = _Report('C12', ctx.tier, ctx.root)
+    _saved = ctx.report
+    ctx.report = _sub
+    try:
+        _c12.r125(ctx, _sub)
+    finally:
+        ctx.report = _saved
+    _n = 0
+    for _o in _sub.obligations:
+        if _o.module == 'petl.transform.hashjoins':
+            _n += 1
+            rep.add('R7.7', (_o.module, _o.qualname), _o.construct, _o.status, _o.message, _o.lineno, _o.detail)
+    if _n < 8:
+        raise AnalysisError('anchor vanished: only %d `missing` forwarding sites in petl.transform.hashjoins' % _n)
+    rep.rule('R7.7', 'the caller\'s `missing` is forwarded unchanged to every callee that pads (stack, the iterator functions): C12 R12.5 restricted to petl.transform.hashjoins')
     from ..typestate import check_functions as _rowbuffers
     rep.rule('R7.6', 'output rows are assembled in a container that is created anew (or emptied) between two deliveries: no cell of one output row is carried into the next (row-buffer typestate)')
     ctx.floor('row_buffer_generators', _rowbuffers(ctx, rep, 'R7.6', ctx.functions(['petl.transform.hashjoins', 'petl.transform.joins'])), 8)
